@@ -34,8 +34,14 @@ func denomRef(denom, srcPort, srcChan string) (base string, ok bool) {
 	if len(parts) > 2 && isChannelID(parts[1]) {
 		return "", false // another hop: the token is not native to Noble
 	}
+	if strings.HasPrefix(r, "ibc/") {
+		return "", false // the hashed name of a voucher Noble holds: a longer trace behind a hash, not a native token
+	}
 	return r, true
 }
+
+// denomHashedVoucher: the on-chain name of a voucher (transfer/channel-1/uatom) — segments "ibc" + hash of the menu.
+const denomHashedVoucher = "ibc/27394FB092D2ECCD56123C74F36E4C1F926001CEADA9CA97EA622B25F41E5EB2"
 
 func isChannelID(s string) bool {
 	if !strings.HasPrefix(s, "channel-") {
@@ -121,7 +127,7 @@ func checkC16(tier string) *Report {
 	}
 	// every escrowed base × all amount spellings on the proper channel pair
 	allAmts := []string{"1000", "0x3e8", "0X3E8", "1_000", "+1000", "01000", "0o1750", "0b1111101000", "1e3", "-1", "0", "00", " 1000", "1000 ", "1000.0", "٣", maxUint256Str, twoTo256}
-	for _, base := range []string{denomUSDC, denomOTH, "UUSDC", "uusdcx", "a-b.c_d:e", denomBIG} {
+	for _, base := range []string{denomUSDC, denomOTH, "UUSDC", "uusdcx", "a-b.c_d:e", denomBIG, denomHashedVoucher} {
 		for _, a := range allAmts {
 			cases = append(cases, tc{"transfer/channel-7/" + base, "transfer", "channel-7", "channel-0", a}, tc{"transfer/channel-9/" + base, "transfer", "channel-9", "channel-1", a})
 		}
